@@ -501,6 +501,9 @@ func stateFoundObjectKeyBegin(s *Scanner, c byte) state {
 	if s.annotation == annotationNone {
 		r = stateBeginString(s, c)
 		s.found(lexeme.ObjectKeyBegin)
+		// A new property starts: annotations are allowed again, even if the previous
+		// value was a non-empty array (which forbids an annotation after its `]`).
+		s.allowAnnotation = true
 	} else {
 		// ...OrEmpty because a comma before the closing parenthesis is allowed. Ex: {k:1,}
 		r = stateBeginAnnotationObjectKeyOrEmpty(s, c)
@@ -633,6 +636,7 @@ func beginKeyShortcut(s *Scanner) state {
 	if s.annotation != annotationNone {
 		panic(s.newDocumentErrorAtCharacter("key shortcut not allowed in annotation"))
 	}
+	s.allowAnnotation = true // a new property starts, see stateFoundObjectKeyBegin
 	s.found(lexeme.KeyShortcutBegin)
 	s.step = stateKeyShortcut
 	return scanContinue
